@@ -129,6 +129,20 @@ func vRedactOp(t []string) string {
 			host = l.Addr().String()
 			l.Close()
 		}
+		switch fault { // a collector host (setting, or redirect_host of a preconnect reply) that cannot be made into a URL
+		case "badhost-scheme":
+			host = "https://" + host
+		case "badhost-blank":
+			host = host + " "
+		case "badhost-port":
+			host = "127.0.0.1:http"
+		case "badhost-pct":
+			host = "collector%zz.example"
+		case "badhost-bracket":
+			host = "[::1"
+		case "badhost-ctl":
+			host = "collector\x7f.example"
+		}
 		if fault == "badtls" {
 			hc = &http.Client{Timeout: 150 * time.Millisecond} // does not trust the test certificate
 		}
